@@ -10,7 +10,7 @@ import json
 import os
 import random
 
-from lib import archiverun, common, gen, grouprun, pharness, runtrace, scratch
+from lib import archiverun, common, gen, grouprun, lang, pharness, runtrace, scratch
 from lib.runner import OutOfModel
 from lib.tlc import run_tlc, require_ok, MachineryError
 
@@ -30,6 +30,16 @@ def _work(args):
     records = [r + [rng.choice(nasty)] if (r and rng.random() < 0.5) else r for r in records]
     idents = [f"m{i}" if rng.random() < 0.7 else "" for i in range(len(members))]
     texts = [grouprun.member_text(mc, ident=idents[i] or None) for i, mc in enumerate(members)]
+    # errors and early endings: a member that collects errors (the scratch policy is collect, print: nothing is raised),
+    # and sometimes a first member that fails and stops at once
+    if rng.random() < 0.5:
+        j = rng.randrange(len(texts))
+        boom = rng.choice(["@boom = mod(5, 0)", "line_number() == 1 -> @boom = mod(5, 0)", "@boom = mod(5, 0) @boom2 = mod(7, 0)"])
+        texts[j] = texts[j][: texts[j].rindex("]")] + f" {boom} ]"
+    if rng.random() < 0.3:
+        members = [{"prog": {"scan": lang.scan("all"), "comps": [], "initVars": [], "meta": []}, "cfg": dict(members[0]["cfg"])}] + members
+        idents = ["early"] + idents
+        texts = ["~ id: early ~ $data[*][ fail() stop() ]"] + texts
     methods = list(pharness.METHODS)
     if quick:
         methods = rng.sample(methods, 3)
